@@ -231,7 +231,7 @@ func runC17(p *eng.Prog, r *eng.Report, tier string) {
 			switch {
 			case strings.HasPrefix(rhs, "builtin.append(recv.spanStack,"):
 				push++
-				c.domAny("C17.4", sp, w.Stmt, "span stack push", []string{"eq(rangeval(p0),local:startDirective<byte>)", "eq(local:startDirective<byte>,rangeval(p0))"})
+				c.domAny("C17.4", sp, w.Stmt, "span stack push", []string{"eq(rangeval(p0),local:*<byte>)", "eq(local:*<byte>,rangeval(p0))"})
 			case rhs == "recv.spanStack[:(builtin.len(recv.spanStack) - 1)]":
 				pop++
 				c.dom("C17.4", sp, w.Stmt, "span stack pop", []string{"eq(rangeval(p0),recv.spanStack[(builtin.len(recv.spanStack) - 1)])", "lt(0,builtin.len(recv.spanStack))"})
@@ -257,11 +257,14 @@ func runC17(p *eng.Prog, r *eng.Report, tier string) {
 		// C17.5
 		n := 0
 		for _, w := range sp.Writes() {
-			if v := rootLocal(sp, w.LHS); v == nil || v.Name() != "startIDX" || w.Tok != token.ASSIGN {
+			// the span start candidate: the local that is assigned the index of
+			// the byte under the cursor (role, not name)
+			wp0, _ := sp.Graph().Where(w.Stmt)
+			if v := rootLocal(sp, w.LHS); v == nil || w.Tok != token.ASSIGN || w.RHS == nil || sp.Norm(w.RHS, &wp0) != "rangekey(p0)" {
 				continue
 			}
 			n++
-			c.dom("C17.5", sp, w.Stmt, "span start candidate", []string{"!all(recv.mask,styling.SpanPre)", "eq(local:startIDX<int>,-1)"})
+			c.dom("C17.5", sp, w.Stmt, "span start candidate", []string{"!all(recv.mask,styling.SpanPre)", "eq(local:*<int>,-1)"})
 		}
 		c.r.Floor("C17.5", "span start candidates", n, 1)
 	}
